@@ -31,6 +31,10 @@ pub struct PanicSite {
 
 static HOOK: Once = Once::new();
 
+/// called with the location of every panic (the byte engine's worker records it in its journal,
+/// so that an abort caused by a panic inside a destructor can still be attributed to a site)
+pub static PANIC_TAP: std::sync::OnceLock<fn(&str)> = std::sync::OnceLock::new();
+
 const GENERIC_SITES: [&str; 1] = ["automerge/src/types.rs:464"];
 
 pub fn install_panic_hook() {
@@ -82,6 +86,9 @@ pub fn install_panic_hook() {
             } else {
                 location
             };
+            if let Some(tap) = PANIC_TAP.get() {
+                tap(&location);
+            }
             let quiet = QUIET.with(|q| *q.borrow());
             if std::env::var("VERIF_BT").is_ok() {
                 eprintln!("panic at {}: {}\n{}", location, message, std::backtrace::Backtrace::force_capture());
